@@ -19,6 +19,7 @@ type oblResult struct {
 	Status   string // discharged, failed, unknown, unsupported, cover-ok, cover-vacuous
 	Backend  string
 	Ms       int64
+	MaxMs    int64
 	Detail   string
 	Subgoals int
 	Model    string
@@ -35,6 +36,46 @@ type job struct {
 	sgIdx  int
 	sg     subgoal
 	alts   []job // alternative way to discharge this subgoal (all must be unsat)
+	ex     *Exec
+	lazy   bool
+}
+
+var buildMu sync.Mutex
+
+// render builds one of the three query variants of a lazy job.
+var buildNs int64
+
+func (j *job) render(kind string) string {
+	buildMu.Lock()
+	t0 := time.Now()
+	defer func() { buildNs += int64(time.Since(t0)); buildMu.Unlock() }()
+	switch kind {
+	case "light":
+		if j.light == "" {
+			pairInstances = false
+			j.light = j.ex.buildQueryMode(j.res.O, j.sg, "", nil, true)
+		}
+		return j.light
+	case "light2":
+		if j.light2 == "" {
+			pairInstances = true
+			j.light2 = j.ex.buildQueryMode(j.res.O, j.sg, "", nil, true)
+			pairInstances = false
+			if j.light2 == j.light {
+				j.light2 = "-"
+			}
+		}
+		if j.light2 == "-" {
+			return ""
+		}
+		return j.light2
+	default:
+		if j.query == "" {
+			pairInstances = false
+			j.query = j.ex.buildQuery(j.res.O, j.sg, "", nil)
+		}
+		return j.query
+	}
 }
 
 func hasTag(tags []string, p string) bool {
@@ -147,17 +188,11 @@ func run(repo, verif, prop, tier, only, dump string, list, verbose bool, timeout
 				continue
 			}
 			for i, sg := range sgs {
-				q := ex.buildQuery(o, sg, "", ex.inputTerms())
-				lq := ex.buildQueryMode(o, sg, "", nil, true)
-				pairInstances = true
-				lq2 := ex.buildQueryMode(o, sg, "", nil, true)
-				pairInstances = false
-				if lq2 == lq {
-					lq2 = ""
-				}
-				j := job{res: r, query: q, light: lq, light2: lq2, sgIdx: i, sg: sg}
+				// queries are rendered lazily (under the function's lock): most
+				// subgoals are settled by the first, instance-only query
+				j := job{res: r, sgIdx: i, sg: sg, ex: ex, lazy: true}
 				for _, asg := range ex.altGoals(sg) {
-					j.alts = append(j.alts, job{res: r, query: ex.buildQuery(o, asg, "", nil), light: ex.buildQueryMode(o, asg, "", nil, true), sgIdx: i, sg: asg})
+					j.alts = append(j.alts, job{res: r, sgIdx: i, sg: asg, ex: ex, lazy: true})
 				}
 				jobs = append(jobs, j)
 			}
@@ -188,13 +223,19 @@ func run(repo, verif, prop, tier, only, dump string, list, verbose bool, timeout
 	}
 	if dump != "" {
 		os.MkdirAll(dump, 0o755)
-		for _, j := range jobs {
+		for ji := range jobs {
+			j := &jobs[ji]
+			if j.lazy {
+				j.render("light")
+				j.render("light2")
+				j.render("full")
+			}
 			name := sanitize(j.res.O.Name) + fmt.Sprintf(".%d.smt2", j.sgIdx)
 			os.WriteFile(filepath.Join(dump, name), []byte(j.query), 0o644)
 			if j.light != "" {
 				os.WriteFile(filepath.Join(dump, strings.TrimSuffix(name, ".smt2")+".light.smt2"), []byte(j.light), 0o644)
 			}
-			if j.light2 != "" {
+			if j.light2 != "" && j.light2 != "-" {
 				os.WriteFile(filepath.Join(dump, strings.TrimSuffix(name, ".smt2")+".light2.smt2"), []byte(j.light2), 0o644)
 			}
 		}
@@ -205,7 +246,7 @@ func run(repo, verif, prop, tier, only, dump string, list, verbose bool, timeout
 	sem := make(chan struct{}, 5) // each job races 3 solvers
 	var solverMs int64
 	for i := range jobs {
-		j := jobs[i]
+		j := &jobs[i]
 		wg.Add(1)
 		sem <- struct{}{}
 		go func() {
@@ -216,16 +257,21 @@ func run(repo, verif, prop, tier, only, dump string, list, verbose bool, timeout
 				to = 3
 			}
 			var sr SolverResult
-			if j.light != "" {
-				sr = Solve(j.light, 4, false)
+			if j.lazy {
+				sr = Solve(j.render("light"), 8, false)
 				if sr.Status == "unsat" {
 					sr.Solver += "(inst)"
 				}
-			}
-			if sr.Status != "unsat" && j.light2 != "" {
-				sr = Solve(j.light2, 10, false)
-				if sr.Status == "unsat" {
-					sr.Solver += "(inst2)"
+				if sr.Status != "unsat" {
+					if l2 := j.render("light2"); l2 != "" {
+						sr = Solve(l2, 15, false)
+						if sr.Status == "unsat" {
+							sr.Solver += "(inst2)"
+						}
+					}
+				}
+				if sr.Status != "unsat" {
+					j.query = j.render("full")
 				}
 			}
 			if sr.Status != "unsat" {
@@ -235,10 +281,11 @@ func run(repo, verif, prop, tier, only, dump string, list, verbose bool, timeout
 				// prove the content equality from its definition instead
 				allOK := true
 				var last SolverResult
-				for _, a := range j.alts {
-					ar := Solve(a.light, 4, false)
+				for ai := range j.alts {
+					a := &j.alts[ai]
+					ar := Solve(a.render("light"), 8, false)
 					if ar.Status != "unsat" {
-						ar = Solve(a.query, to, false)
+						ar = Solve(a.render("full"), to, false)
 					}
 					last = ar
 					if ar.Status != "unsat" {
@@ -279,6 +326,9 @@ func run(repo, verif, prop, tier, only, dump string, list, verbose bool, timeout
 					r.Backend += sr.Solver
 				}
 				r.Ms += sr.Ms
+				if sr.Ms > r.MaxMs {
+					r.MaxMs = sr.Ms
+				}
 			case "sat":
 				r.Status = "failed"
 				r.Model = sr.Output
@@ -362,7 +412,7 @@ func report(V *Verifier, verif, repo, prop, tier string, start time.Time, result
 	coverByFn := map[string][]*oblResult{}
 	sort.SliceStable(results, func(i, j int) bool { return results[i].O.Name < results[j].O.Name })
 	for _, r := range results {
-		entry := map[string]interface{}{"name": r.O.Name, "kind": r.O.Kind, "pos": r.O.Pos, "result": r.Status, "backend": r.Backend, "ms": r.Ms, "subgoals": r.Subgoals}
+		entry := map[string]interface{}{"name": r.O.Name, "kind": r.O.Kind, "pos": r.O.Pos, "result": r.Status, "backend": r.Backend, "ms": r.Ms, "max_subgoal_ms": r.MaxMs, "subgoals": r.Subgoals}
 		if r.O.IsCover {
 			// a return that is unreachable under the precondition is dead
 			// (defensive) code; a function none of whose returns is reachable
@@ -482,6 +532,9 @@ func report(V *Verifier, verif, repo, prop, tier string, start time.Time, result
 	os.MkdirAll(filepath.Join(outRoot, "evidence"), 0o755)
 	data, _ := json.MarshalIndent(ev, "", " ")
 	os.WriteFile(filepath.Join(outRoot, "evidence", prop+".json"), data, 0o644)
+	if os.Getenv("VERIF_PROFILE") != "" {
+		fmt.Fprintf(os.Stderr, "profile: query rendering %.1fs (serialised), solver time %.1fs (summed)\n", float64(buildNs)/1e9, float64(solverMs)/1000)
+	}
 	fmt.Printf("property=%s functions=%d obligations=%d discharged=%d covers=%d/%d violations=%d wall=%.1fs\n", prop, len(fuc), nObl, nDis, nCoverOK, nCover, violations, time.Since(start).Seconds())
 	if violations > 0 {
 		return 1
